@@ -47,7 +47,9 @@ def cond_replay(env):
         S12 = R.loc[free, given].to_numpy()
         S22 = R.loc[given, given].to_numpy()
         mu = S12 @ np.linalg.inv(S22) @ z2
-        return free, {c: X[c].mean() + X[c].std(ddof=0) * mu[i] for i, c in enumerate(free)}
+        cov = R.loc[free, free].to_numpy() - S12 @ np.linalg.inv(S22) @ S12.T
+        sd = {c: X[c].std(ddof=0) * np.sqrt(cov[i, i]) for i, c in enumerate(free)}
+        return free, {c: X[c].mean() + X[c].std(ddof=0) * mu[i] for i, c in enumerate(free)}, sd
     for cond in ({'score': 1.5}, {'age': -1.0}, {'height': 2.0, 'score': -1.0}, {'score': -1.0, 'height': 2.0}):
         for container in ('dict', 'series'):
             c_in = dict(cond) if container == 'dict' else pd.Series(cond)
@@ -65,10 +67,13 @@ def cond_replay(env):
             for c, v in cond.items():
                 if not (out[c] == v).all():
                     bad.append('%s %r: conditioned column %s not equal to %r' % (container, cond, c, v))
-            free, mu = expect(cond)
+            free, mu, sd = expect(cond)
             for c in free:
                 if abs(out[c].mean() - mu[c]) > 0.06:
                     bad.append('%s %r: mean of %s = %.3f, conditional law gives %.3f' % (container, cond, c, out[c].mean(), mu[c]))
+                if abs(out[c].std() / sd[c] - 1) > 0.06:
+                    bad.append('%s %r: standard deviation of %s = %.3f, conditional law (Schur complement) gives %.3f'
+                               % (container, cond, c, out[c].std(), sd[c]))
     return {'confirmed': bool(bad), 'detail': '; '.join(bad[:6]) if bad else 'native conditional samples follow the conditional law'}
 
 
